@@ -10,6 +10,8 @@
 import Anonymongo.Lemmas.ScalarKind
 import Anonymongo.Lemmas.ShapeAlg
 import Anonymongo.Lemmas.Refine
+import Anonymongo.Lemmas.NumsOk
+import Anonymongo.Generated.Tables
 namespace Anonymongo
 
 /-- walker level: every automaton state, every tree -/
@@ -108,5 +110,21 @@ example : (J.obj [("c".toList, .str "COMMAND".toList),
     ("attr".toList, .obj [("command".toList, .obj [("filter".toList,
       .obj [("a".toList, .null), ("b".toList, .arr [.arr [], .obj [("$eq".toList, .str "x".toList)]])])])])]).nodup = true := by
   decide
+
+end Anonymongo
+
+namespace Anonymongo
+
+/-- **C03 (one physical line, byte level)**: for every line the parser accepts, every flag set
+    (field-name redaction, selective mode, encrypt mode included) and every plan-summary rewriter, the
+    emitted bytes contain no line feed, no carriage return and no other control byte — the output line
+    is exactly one physical line.  (The only assumption is on the regenerated number placeholder,
+    discharged for the current tables by `C03_number_placeholder_ok`.) -/
+theorem C03_one_line (T : Tables) (hT : (T.number.all fun ch => 0x20 ≤ ch.toNat) = true) (cfg : Cfg) (eager : List Str)
+    (plan : Str → Str → Str) (bs : Bytes) (entry : List (Str × J)) (hp : parseObj bs = some entry) :
+    ∀ b ∈ printObj (redactLine T cfg eager plan entry), b ≠ 10 ∧ b ≠ 13 ∧ 0x20 ≤ b :=
+  printObj_one_line _ (redactLine_numsOk T hT cfg eager plan entry (parseObj_numsOk bs entry hp))
+
+theorem C03_number_placeholder_ok : (Generated.tables.number.all fun ch => 0x20 ≤ ch.toNat) = true := by decide +kernel
 
 end Anonymongo
